@@ -39,7 +39,7 @@ Step(cls) ==
     [] cls = "expireall" -> ExpireAll
     [] cls = "deleteall" -> DeleteAll
     [] cls = "len"       -> LenOp
-    [] cls = "walk"      -> Walk
+    [] cls = "walk"      -> Walk \/ WalkStop
     [] cls = "tick"      -> Tick
     [] cls = "relay"     -> Relay
     [] cls = "cleanup"   -> \E b \in BOOLEAN : Cleanup(b)
